@@ -753,8 +753,6 @@ def lowered_alternatives(k, dt):
     repaired_<k> may be listed here while a patch of .scratch/c01k/ is pending."""
     low = coq_names(k, dt)[1]
     alts = [low]
-    if k.name == "integer_pow0":                                               # fix_integer_pow0.diff (pending)
-        alts.append(f"repaired_integer_pow0 {sb_lit(dt)}")
     return alts
 
 
@@ -763,8 +761,6 @@ def deep_alternatives(k, dt):
     if dn is None:
         return []
     alts = [dn]
-    if k.name == "integer_pow0":
-        alts.append(f"KOp2 (OAdd {sb_lit(dt)}) (KOp2 (OMul {sb_lit(dt)}) v0 (kz 0)) (kz 1)")
     return alts
 
 
@@ -788,7 +784,7 @@ def result_lit(v, kind):
     return zlit(int(v))
 
 
-COQ_HDR = common.CASES_HEADER + "From J2O Require Import Tensor Batch OnnxInt Kernels Lift LiftProg.\n"
+COQ_HDR = common.CASES_HEADER + "From J2O Require Import Tensor Batch Graph Lowering LoweringSem OnnxInt Kernels Lift LiftProg LiftStruct.\n"
 
 
 def eq_term(kind, a, b):
@@ -1466,6 +1462,411 @@ def prog_expected(pg):
     return term[jp.outvars[0]], names
 
 
+# ------------------------------------------------------------------------------------------------ (f) traced programs with structure
+# Realistic integer programs whose jaxprs contain what real traces contain next to the table primitives: literals, rank
+# promotion (broadcast_in_dim), reshape, squeeze / expand_dims, transpose, integer convert_element_type, nested jit.  For each:
+#   the jaxpr the converter sees is flattened (jit bodies inlined, as the converter does) and mapped equation by equation to
+#   LiftStruct.gspec entries (primitive + static parameters + the operand aval where the plugin reads it; an equation that
+#   is none of these fails closed);  Coq RUNS the model dispatcher (LoweringSem.slower_jaxpr over LiftStruct.greg) on that
+#   program and checks that the graph it emits, read as a tree, is the tree read off the REAL export (tie S for programs);
+#   LiftStruct.sp_jax (tensor-level JAX semantics of every equation) is evaluated on boundary fills against eager JAX, and
+#   LiftStruct.sp_onnx (tensor-level ONNX semantics of the emitted graph) against onnxruntime on the real export (ties D);
+#   onnxruntime vs eager JAX bit exact on the same fills (search).  LiftStruct.struct_program_correct is the theorem between.
+SPRIM_ALIAS = dict(PRIM_ALIAS)
+SPRIM_ALIAS.update({"jax.numpy.clip": "clip_op", "jax.numpy.subtract": "sub", "jax.numpy.multiply": "mul", "jax.numpy.negative": "neg",
+                    "jax.numpy.not_equal": "ne", "jax.numpy.squeeze": "squeeze", "jax.numpy.transpose": "transpose",
+                    "jax.numpy.reshape": "reshape", "jax.numpy.floor_divide": "floor_divide", "jax.numpy.fmod": "fmod"})
+STABLE_PRIMS = TABLE_PRIMS | {"clip_op", "floor_divide", "fmod"}
+CALL_PRIMS = {"jit", "pjit", "closed_call", "core_call"}
+
+
+class SProg:
+    def __init__(self, pid, text, make, shapes, dt, avoid=()):
+        self.id, self.text, self.make, self.shapes, self.dt, self.avoid = pid, text, make, shapes, dt, set(avoid)
+        self.fn = make()
+        self.fills = self.jax = self.err = self.model = self.ort = None
+        self.tab = self.prog = self.out = self.real = self.keys = None
+        self.s_job = self.j_job = self.o_job = None
+
+
+def struct_corpus(tier):
+    import jax
+    import jax.numpy as jnp           # attributes are looked up at call time (the converter patches the module)
+    from jax import lax
+    P = []
+
+    def add(pid, text, fn, shapes, dt="int32", avoid=()):
+        P.append(SProg(pid, text, (lambda f=fn: f), shapes, dt, avoid))
+    add("rank_promo", "x * 2 + y", lambda x, y: x * 2 + y, [(2, 3), (3,)])
+    add("where_lit", "where(x > y, x, 0)", lambda x, y: jnp.where(x > y, x, 0), [(2, 3), (3,)])
+    add("reshape_T", "(x.reshape(3,2).T + y) * x", lambda x, y: (x.reshape(3, 2).T + y) * x, [(2, 3), (2, 3)])
+    add("expand_sq", "squeeze(expand_dims(x,0) - y[None,None,:], 0)",
+        lambda x, y: jnp.squeeze(jnp.expand_dims(x, 0) - y[None, None, :], 0), [(2, 3), (3,)])
+    add("astype", "(x.astype(int8).astype(int32) & y) | 5", lambda x, y: (x.astype(jnp.int8).astype(jnp.int32) & y) | 5, [(2, 3), (2, 1)])
+    add("clipabs", "clip(abs(x) - y, -3, 9)", lambda x, y: jnp.clip(jnp.abs(x) - y, -3, 9), [(2, 3), (1, 3)])
+    add("nested_jit", "jit(lambda a,b: maximum(a, b[:,None]) * a)(x,y) - x",
+        lambda x, y: jax.jit(lambda a, b: jnp.maximum(a, b[:, None]) * a)(x, y) - x, [(2, 3), (2,)])
+    add("floor_div", "x // where(y == 0, 1, y)", lambda x, y: x // jnp.where(y == 0, 1, y), [(2, 3), (3,)], avoid=(-1,))
+    add("swap", "swapaxes(x,0,2) - 1", lambda x: jnp.swapaxes(x, 0, 2) - 1, [(2, 3, 4)])
+    add("bcast_to", "broadcast_to(y,(2,3)) ^ 7", lambda y: jnp.broadcast_to(y, (2, 3)) ^ 7, [(3,)])
+    add("u8_min", "minimum(x.reshape(3,2), y) * 3 [uint8]", lambda x, y: jnp.minimum(x.reshape(3, 2), y) * jnp.uint8(3), [(2, 3), (2,)], "uint8")
+    add("i64_promo", "(x - y) * y [int64]", lambda x, y: (x - y) * y, [(2, 1, 3), (2, 3)], "int64")
+    if tier != "quick":
+        add("i16_sel", "where(x.T < y, -x.T, y - 3) [int16]", lambda x, y: jnp.where(x.T < y, -x.T, y - 3), [(3, 2), (2, 3)], "int16")
+        add("u32_min", "minimum(x.T * 5, y - 3) [uint32]", lambda x, y: jnp.minimum(x.T * jnp.uint32(5), y - jnp.uint32(3)), [(3, 2), (2, 3)], "uint32")
+        add("deep", "jit(jit(abs)(x) + y)(...).reshape(6) * 7",
+            lambda x, y: jax.jit(lambda a, b: jax.jit(jnp.abs)(a) + b)(x, y).reshape(6) * 7, [(2, 3), (3,)])
+        add("i8_chain", "((x + y[:,None]).astype(int32) * 100).astype(int8) [int8]",
+            lambda x, y: ((x + y[:, None]).astype(jnp.int32) * 100).astype(jnp.int8), [(2, 3), (2,)], "int8")
+    return P
+
+
+def sprog_fills(sp, rng, nfill):
+    dt = np.dtype(sp.dt)
+    vals = [v for v in int_values(sp.dt, small=True) if v not in sp.avoid]
+    fills = []
+    for f in range(nfill):
+        cols = []
+        for k_, sh in enumerate(sp.shapes):
+            n = int(np.prod(sh)) if len(sh) else 1
+            if f == 0:
+                a = np.array([vals[(7 * j + 3 + 5 * k_) % len(vals)] for j in range(n)], dtype=dt)
+            else:
+                a = np.array([rng.choice(vals) for _ in range(n)], dtype=dt)
+            cols.append(a.reshape(sh))
+        fills.append(cols)
+    return fills
+
+
+def nlist(xs):
+    return "([" + "; ".join(str(int(x)) for x in xs) + "]%nat)"
+
+
+def sval_lit(v):
+    v = np.asarray(v)
+    if v.dtype == np.bool_:
+        return f"(VB {blit(bool(v))})"
+    if v.dtype.kind in "iu":
+        return f"(VZ {zlit(int(v))})"
+    raise Unrecognised(f"literal of dtype {v.dtype}")
+
+
+def cten_lit(a):
+    a = np.asarray(a)
+    if a.dtype == np.bool_:
+        data = "map VB [" + "; ".join(blit(bool(x)) for x in a.reshape(-1)) + "]"
+    elif a.dtype.kind in "iu":
+        data = "map VZ [" + "; ".join(zlit(int(x)) for x in a.reshape(-1)) + "]%Z"
+    else:
+        raise Unrecognised(f"tensor of dtype {a.dtype}")
+    return f"(mkC {nlist(a.shape)} ({data}))"
+
+
+def flatten_jaxpr(jp):
+    """inline call primitives (jit bodies), as the converter does: -> (number of inputs, [(primitive, params, operands, out id,
+    out aval)], output id); operands are ('v', id, aval) or ('lit', value, aval)"""
+    counter = [0]
+    eqns = []
+
+    def fresh():
+        counter[0] += 1
+        return counter[0] - 1
+
+    def walk(j, sub):
+        def atom(a):
+            if hasattr(a, "val"):
+                return ("lit", np.asarray(a.val), a.aval)
+            return sub[a]
+        for e in j.eqns:
+            prim = str(e.primitive)
+            if prim in CALL_PRIMS:
+                inner = e.params.get("jaxpr", e.params.get("call_jaxpr"))
+                ij = getattr(inner, "jaxpr", inner)
+                if getattr(inner, "consts", ()):
+                    raise Unrecognised(f"{prim} body with constants")
+                if ij.constvars:
+                    raise Unrecognised(f"{prim} body with constvars")
+                isub = {iv: atom(a) for iv, a in zip(ij.invars, e.invars)}
+                walk(ij, isub)
+                for ov, io in zip(e.outvars, ij.outvars):
+                    sub[ov] = ("lit", np.asarray(io.val), io.aval) if hasattr(io, "val") else isub[io]
+                continue
+            if len(e.outvars) != 1:
+                raise Unrecognised(f"primitive {prim} with {len(e.outvars)} results")
+            o = fresh()
+            eqns.append((prim, dict(e.params), [atom(a) for a in e.invars], o, e.outvars[0].aval))
+            sub[e.outvars[0]] = ("v", o, e.outvars[0].aval)
+    if jp.constvars:
+        raise Unrecognised("jaxpr with constvars")
+    sub0 = {}
+    for v in jp.invars:
+        sub0[v] = ("v", fresh(), v.aval)
+    walk(jp, sub0)
+    if len(jp.outvars) != 1 or hasattr(jp.outvars[0], "val"):
+        raise Unrecognised("the program must have one computed output")
+    out = sub0[jp.outvars[0]]
+    return len(jp.invars), eqns, out[1], counter
+
+
+def sprog_model(sp):
+    """(table text, program text, output variable, keys) of LiftStruct for the jaxpr the converter sees; Unrecognised when an
+    equation is outside the fragment"""
+    import jax
+    from jax2onnx.converter import conversion_api as ca
+    specs = [jax.ShapeDtypeStruct(sh, np.dtype(sp.dt)) for sh in sp.shapes]
+    with ca._activate_plugin_worlds():
+        cj = jax.make_jaxpr(sp.fn)(*specs)
+    if cj.consts:
+        raise Unrecognised("closed jaxpr with constants")
+    nin, eqns, out, counter = flatten_jaxpr(cj.jaxpr)
+    tab, prog, keys = {}, [], []
+
+    def dtn(aval):
+        return str(np.dtype(aval.dtype))
+
+    def emit(key, spec, ins, o):
+        if tab.setdefault(key, spec) != spec:
+            raise Unrecognised(f"key clash {key}")
+        keys.append(key)
+        prog.append(f"mkEqn \"{key}\" [{'; '.join(f'IVar {i}%nat' for i in ins)}] [Some {o}%nat]")
+
+    def operand(a):
+        if a[0] == "v":
+            return a[1]
+        if a[1].shape != ():
+            raise Unrecognised("non-scalar literal")
+        o = counter[0]
+        counter[0] += 1
+        emit(f"lit:{a[1].dtype}:{a[1].item()}", f"GConst {sval_lit(a[1])}", [], o)
+        return o
+    for prim, params, ins, o, oaval in eqns:
+        p = SPRIM_ALIAS.get(prim, prim)
+        shapes = [tuple(a[2].shape) for a in ins]
+        if p == "broadcast_in_dim":
+            target, bd = tuple(params["shape"]), tuple(params["broadcast_dimensions"])
+            if ins[0][0] == "lit":
+                if ins[0][1].shape != ():
+                    raise Unrecognised("broadcast of a non-scalar literal")
+                emit(f"full:{ins[0][1].dtype}:{ins[0][1].item()}->{list(target)}", f"GFull {nlist(target)} {sval_lit(ins[0][1])}", [], o)
+            else:
+                emit(f"broadcast_in_dim:{list(shapes[0])}->{list(target)}@{list(bd)}",
+                     f"GBcast {nlist(shapes[0])} {nlist(target)} {nlist(bd)}", [ins[0][1]], o)
+        elif p == "reshape":
+            if params.get("dimensions") is not None:
+                raise Unrecognised("reshape with dimensions")
+            new = tuple(params.get("new_sizes", oaval.shape))
+            emit(f"reshape->{list(new)}", f"GReshape {nlist(new)}", [operand(ins[0])], o)
+        elif p == "squeeze":
+            dims = tuple(int(d) % max(1, len(shapes[0])) for d in params["dimensions"])
+            emit(f"squeeze@{list(dims)}", f"GSqueeze {nlist(dims)}", [operand(ins[0])], o)
+        elif p == "transpose":
+            perm = params.get("permutation", params.get("axes"))
+            if perm is None:
+                perm = tuple(reversed(range(len(shapes[0]))))
+            emit(f"transpose@{list(perm)}", f"GTranspose {nlist(perm)}", [operand(ins[0])], o)
+        elif p == "convert_element_type":
+            src, new = dtn(ins[0][2]), str(np.dtype(params["new_dtype"]))
+            if src in INT_DTYPES and new in INT_DTYPES:
+                key = f"convert_element_type>{new}"
+            elif src in INT_DTYPES and new == "bool":
+                key = f"convert_element_type:{src}>bool"
+            elif src == "bool" and new in INT_DTYPES:
+                key = f"convert_element_type:bool>{new}"
+            else:
+                raise Unrecognised(f"convert_element_type {src} -> {new}")
+            emit(key, f"GElem \"{key}\"", [operand(ins[0])], o)
+        elif p in STABLE_PRIMS:
+            dts = [dtn(a[2]) for a in ins]
+            if p == "integer_pow":
+                key = f"integer_pow{int(params['y'])}:{dts[0]}"
+            elif p in ("select_n", "where"):
+                key = f"{p}:{dts[1]}"
+            else:
+                key = f"{p}:{dts[0]}"
+            emit(key, f"GElem \"{key}\"", [operand(a) for a in ins], o)
+        else:
+            raise Unrecognised(f"primitive {prim} is outside the structural fragment")
+    tab_t = "[" + "; ".join(f"(\"{k_}\", {s_})" for k_, s_ in tab.items()) + "]"
+    return tab_t, "[" + "; ".join(prog) + "]", out, nin, keys
+
+
+_R_SB1 = {"Neg": "ONeg", "Abs": "OAbs", "Sign": "OSign", "BitwiseNot": "OBitNot"}
+_R_SB2 = {"Add": "OAdd", "Sub": "OSub", "Mul": "OMul", "Div": "ODiv", "Pow": "OPow", "BitwiseAnd": "OBitAnd", "BitwiseOr": "OBitOr",
+          "BitwiseXor": "OBitXor"}
+_R_CMP = {"Equal": "OEqual", "Less": "OLess", "LessOrEqual": "OLessEq", "Greater": "OGreater", "GreaterOrEqual": "OGreaterEq"}
+_R_BOOL2 = {"And": "OAnd", "Or": "OOr", "Xor": "OXor"}
+
+
+def rtree_of_model(model):
+    """the exported graph as a LiftStruct.rtree over its inputs (fail closed: any operator / attribute / dtype / wiring outside
+    the table raises Unrecognised).  Shape operands must be constants (initializers, Concat of initializers)."""
+    from onnx import numpy_helper
+    g = model.graph
+    if model.functions:
+        raise Unrecognised("model has local functions")
+    inits = {i.name: numpy_helper.to_array(i) for i in g.initializer}
+    env = {}
+    nreal = 0
+    for i in g.input:
+        if i.name in inits:
+            continue
+        mm = re.fullmatch(r"in_(\d+)", i.name)
+        if not mm:
+            raise Unrecognised(f"input name {i.name}")
+        dt = CODE_NAME.get(i.type.tensor_type.elem_type)
+        if dt not in INT_DTYPES and dt != "bool":
+            raise Unrecognised(f"input dtype {dt}")
+        env[i.name] = (dt, f"(RIn {int(mm.group(1))}%nat)")
+        nreal += 1
+    shapec = {}
+
+    def shapevec(name):
+        if name in shapec:
+            return shapec[name]
+        if name in inits and inits[name].dtype == np.int64 and inits[name].ndim == 1:
+            return [int(v) for v in inits[name]]
+        raise Unrecognised(f"{name} is not a constant shape")
+
+    def val(name):
+        if name in env:
+            return env[name]
+        if name in inits:
+            a = inits[name]
+            if a.dtype.name not in INT_DTYPES and a.dtype != np.bool_:
+                raise Unrecognised(f"constant dtype {a.dtype}")
+            flat = a.reshape(-1)
+            if flat.size == 0 or not (flat == flat[0]).all():
+                raise Unrecognised("non-uniform constant tensor")
+            c = sval_lit(flat[0])
+            dt = "bool" if a.dtype == np.bool_ else a.dtype.name
+            return (dt, f"(RConst {c})" if a.shape == () else f"(RFull {nlist(a.shape)} {c})")
+        raise Unrecognised(f"value {name} has no producer")
+    for n in g.node:
+        op = n.op_type
+        attrs = {a.name for a in n.attribute}
+
+        def only(*allowed):
+            if not attrs <= set(allowed):
+                raise Unrecognised(f"{op} has attributes {sorted(attrs)}")
+        if len(n.output) != 1:
+            raise Unrecognised(f"{op} with {len(n.output)} outputs")
+        out = n.output[0]
+        if op == "Concat":
+            only("axis")
+            if int(_attr(n, "axis")) != 0:
+                raise Unrecognised("Concat axis")
+            shapec[out] = [v for x in n.input for v in shapevec(x)]
+            continue
+        if op in ("Reshape", "Expand", "Squeeze"):
+            only("allowzero") if op == "Reshape" else only()
+            if op == "Reshape" and int(_attr(n, "allowzero", 0)) != 0:
+                raise Unrecognised("Reshape allowzero")
+            if len(n.input) != 2:
+                raise Unrecognised(f"{op} arity")
+            dt, x = val(n.input[0])
+            sv = shapevec(n.input[1])
+            if any(v < (0 if op == "Squeeze" else 1) for v in sv):
+                raise Unrecognised(f"{op} with special entries {sv}")
+            env[out] = (dt, f"(R{op} {nlist(sv)} {x})")
+            continue
+        if op == "Transpose":
+            only("perm")
+            perm = _attr(n, "perm")
+            if perm is None:
+                raise Unrecognised("Transpose without perm")
+            dt, x = val(n.input[0])
+            env[out] = (dt, f"(RTranspose {nlist(perm)} {x})")
+            continue
+        ins = [val(x) for x in n.input if x != ""]
+        dts = [i[0] for i in ins]
+        ex = [i[1] for i in ins]
+
+        def same_int():
+            if len(set(dts)) != 1 or dts[0] not in INT_DTYPES:
+                raise Unrecognised(f"{op} on {dts}")
+            return dts[0]
+        if op in _R_SB2 and len(ins) == 2:
+            only()
+            d = same_int()
+            r = (d, f"(ROp2 ({_R_SB2[op]} {sb_lit(d)}) {ex[0]} {ex[1]})")
+        elif op in _R_SB1 and len(ins) == 1:
+            only()
+            d = same_int()
+            r = (d, f"(ROp1 ({_R_SB1[op]} {sb_lit(d)}) {ex[0]})")
+        elif op == "BitShift" and len(ins) == 2:
+            only("direction")
+            d = same_int()
+            dirn = _attr(n, "direction")
+            dirn = dirn.decode() if isinstance(dirn, bytes) else dirn
+            if dirn not in ("LEFT", "RIGHT"):
+                raise Unrecognised(f"BitShift direction {dirn}")
+            r = (d, f"(ROp2 ({'OShl' if dirn == 'LEFT' else 'OShr'} {sb_lit(d)}) {ex[0]} {ex[1]})")
+        elif op in ("Max", "Min") and len(ins) == 2:
+            only()
+            r = (same_int(), f"(ROp2 O{op} {ex[0]} {ex[1]})")
+        elif op in _R_CMP and len(ins) == 2:
+            only()
+            if dts == ["bool", "bool"] and op == "Equal":
+                r = ("bool", f"(ROp2 OEqualB {ex[0]} {ex[1]})")
+            else:
+                same_int()
+                r = ("bool", f"(ROp2 {_R_CMP[op]} {ex[0]} {ex[1]})")
+        elif op in _R_BOOL2 and dts == ["bool", "bool"]:
+            only()
+            r = ("bool", f"(ROp2 {_R_BOOL2[op]} {ex[0]} {ex[1]})")
+        elif op == "Not" and dts == ["bool"]:
+            only()
+            r = ("bool", f"(ROp1 ONot {ex[0]})")
+        elif op == "Where" and len(ins) == 3 and dts[0] == "bool" and dts[1] == dts[2]:
+            only()
+            r = (dts[1], f"(ROp3 {'OWhereB' if dts[1] == 'bool' else 'OWhere'} {ex[0]} {ex[1]} {ex[2]})")
+        elif op == "Clip" and len(ins) == 3:
+            only()
+            r = (same_int(), f"(ROp3 OClip {ex[0]} {ex[1]} {ex[2]})")
+        elif op == "Relu" and len(ins) == 1:
+            only()
+            r = (same_int(), f"(ROp1 ORelu {ex[0]})")
+        elif op == "Identity" and len(ins) == 1:
+            only()
+            r = (dts[0], f"(ROp1 OIdentity {ex[0]})")
+        elif op == "Cast" and len(ins) == 1:
+            only("to", "saturate")
+            to = CODE_NAME.get(int(_attr(n, "to")))
+            if dts[0] in INT_DTYPES and to in INT_DTYPES:
+                r = (to, f"(ROp1 (OCast {sb_lit(to)}) {ex[0]})")
+            elif dts[0] in INT_DTYPES and to == "bool":
+                r = ("bool", f"(ROp1 OCastToBool {ex[0]})")
+            elif dts[0] == "bool" and to in INT_DTYPES:
+                r = (to, f"(ROp1 (OCastOfBool {sb_lit(to)}) {ex[0]})")
+            else:
+                raise Unrecognised(f"Cast {dts[0]} -> {to}")
+        else:
+            raise Unrecognised(f"operator {op} on {dts}")
+        env[out] = r
+    if len(g.output) != 1:
+        raise Unrecognised("number of graph outputs")
+    dt, t = val(g.output[0].name)
+    if CODE_NAME.get(g.output[0].type.tensor_type.elem_type) != dt:
+        raise Unrecognised("declared output dtype differs from the computed one")
+    return t
+
+
+def sprog_jobs(sp, jobs, ort_outs):
+    """the three Coq evaluations of a traced program: tree (tie S), sp_jax vs eager JAX, sp_onnx vs onnxruntime"""
+    p = f"sp_{sp.id}"
+    hdr = (f"Definition {p}_tab : list (string * gspec) := ({sp.tab})%string.\n"
+           f"Definition {p}_prog : jaxpr := ({sp.prog})%string.\n")
+    sp.s_job = jobs.add(hdr + f"Goal sp_tree {p}_tab {p}_prog {sp.nin}%nat {sp.out}%nat = Some (gtree_of {sp.real}).\n"
+                        f"Proof. first [ timeout 120 (vm_compute; reflexivity); idtac \"TIE_S_OK\" | idtac \"TIE_S_BAD\" ]. Abort.\n")
+    rows = "; ".join("([" + "; ".join(cten_lit(c) for c in cols) + "], " + cten_lit(ref_) + ")" for cols, ref_ in zip(sp.fills, sp.jax))
+    sp.j_job = jobs.add(f"Definition {p}_j : list (list cten * cten) := [{rows}].\n"
+                        f"Eval vm_compute in bad_idx_ (fun c => opt_cten_is (sp_jax {p}_tab {p}_prog (fst c) {sp.out}%nat) (snd c)) 0 {p}_j.\n")
+    if ort_outs is not None:
+        rows = "; ".join("([" + "; ".join(cten_lit(c) for c in cols) + "], " + cten_lit(o_) + ")" for cols, o_ in zip(sp.fills, ort_outs))
+        sp.o_job = jobs.add(f"Definition {p}_o : list (list cten * cten) := [{rows}].\n"
+                            f"Eval vm_compute in bad_idx_ (fun c => opt_cten_is (sp_onnx {p}_tab {p}_prog (fst c) {sp.out}%nat) (snd c)) 0 {p}_o.\n")
+
+
 # ------------------------------------------------------------------------------------------------ inventory of jax.numpy plugins
 # Every plugin registered under jax.numpy.* must be classified: PROVED (its integer lowering is a kernel of this check: tied
 # by tie S, proved, searched) or NOT_EXACT (explicitly outside the exact fragment, with the reason).  A plugin in neither
@@ -1583,6 +1984,9 @@ def run(ctx):
     progs = gen_programs(14 if tier == "quick" else 70, rng)
     for pg in progs:
         pg.fills = prog_fills(pg, rng, 4 if tier == "quick" else 10)
+    sprogs = struct_corpus(tier)
+    for sp in sprogs:
+        sp.fills = sprog_fills(sp, rng, 3 if tier == "quick" else 8)
     prev64 = _set_x64(False)
     try:
         # ---- phase 1: eager JAX references (BEFORE any export of the same callable)
@@ -1604,6 +2008,14 @@ def run(ctx):
                     pg.jax = [np.asarray(pg.fn(*[jnp.asarray(a) for a in cols])) for cols in pg.fills]
                 except Exception as e:  # noqa: BLE001
                     pg.err = f"eager JAX: {type(e).__name__}: {e}"[:300]
+            for sp in sprogs:
+                if (sp.dt == "int64") != flag:
+                    continue
+                try:
+                    import jax.numpy as jnp
+                    sp.jax = [np.asarray(sp.fn(*[jnp.asarray(a) for a in cols])) for cols in sp.fills]
+                except Exception as e:  # noqa: BLE001
+                    sp.err = f"eager JAX: {type(e).__name__}: {e}"[:300]
         T["jax_references"] = round(_time.time() - t_, 1)
         t_ = _time.time()
         # ---- phase 2: real exports of the single-primitive programs
@@ -1629,6 +2041,20 @@ def run(ctx):
                     pg.status, pg.err = "outside-fragment", str(e)
                 except Exception as e:  # noqa: BLE001
                     pg.err = f"export: {type(e).__name__}: {e}"[:300]
+            for sp in sprogs:
+                if (sp.dt == "int64") != flag or sp.err:
+                    continue
+                try:
+                    import jax as _jax
+                    from jax2onnx import to_onnx as _to_onnx
+                    sp.tab, sp.prog, sp.out, sp.nin, sp.keys = sprog_model(sp)
+                    sp.model = _to_onnx(sp.fn, [_jax.ShapeDtypeStruct(sh, np.dtype(sp.dt)) for sh in sp.shapes],
+                                        enable_double_precision=bool(flag))
+                    sp.real = rtree_of_model(sp.model)
+                except Unrecognised as e:
+                    sp.err = f"not recognised: {e}"
+                except Exception as e:  # noqa: BLE001
+                    sp.err = f"export: {type(e).__name__}: {e}"[:300]
     finally:
         _set_x64(prev64)
     for v in variants:
@@ -1760,6 +2186,24 @@ def run(ctx):
     for pg in live_progs:
         pg.ort = pres[pi:pi + len(pg.fills)]
         pi += len(pg.fills)
+    # ---- (f) traced programs with structural primitives: onnxruntime on the real exports, then the Coq evaluations
+    live_sp = [sp for sp in sprogs if sp.real is not None]
+    for sp in live_sp:
+        sp.type_errors = schema_type_errors(sp.model)
+    items = [(sp.model.SerializeToString(), cols, False) for sp in live_sp if not sp.type_errors for cols in sp.fills]
+    sres = ort_child(ctx, items, tag="ortsprog") if items else []
+    si = 0
+    for sp in live_sp:
+        if sp.type_errors:
+            continue
+        sp.ort = sres[si:si + len(sp.fills)]
+        si += len(sp.fills)
+    for sp in live_sp:
+        try:
+            outs = [val[0] for st, val in sp.ort] if sp.ort and all(st == "ran" for st, _ in sp.ort) else None
+            sprog_jobs(sp, jobs, outs)
+        except Unrecognised as e:
+            sp.err = f"cannot render: {e}"
     T["programs"] = round(_time.time() - t_, 1)
     t_ = _time.time()
 
@@ -1930,6 +2374,68 @@ def run(ctx):
                          "c01k_programs_searched_in_onnxruntime": n_prog_searched, "c01k_program_points": prog_points,
                          "c01k_programs_generated_outside_fragment": outside[:10],
                          "c01k_program_samples": [pg.text for pg in progs if pg.status != "outside-fragment"][:8]})
+    # ---- (f) traced programs: judge
+    n_sp_tied = n_sp_jax = n_sp_onnx = n_sp_searched = sp_points = 0
+    for sp in sprogs:
+        desc = f"{sp.text} with {', '.join('xyz'[i] + ':' + sp.dt + str(list(sh)) for i, sh in enumerate(sp.shapes))}"
+        if sp.real is None or sp.s_job is None:
+            ctx.oblige(f"sprog:{sp.id}", False, "tie", f"traced program {desc}: {sp.err}"
+                       + (f"; nodes {structure(sp.model)}" if sp.model is not None else ""))
+            continue
+        if sp.type_errors:
+            ctx.violate(f"sprogram:{sp.id}:{sp.dt}:onnx-type-invalid",
+                        f"traced program {desc}: the exported model is not valid ONNX: {sp.type_errors}; nodes {structure(sp.model)}",
+                        {"kind": "sprogram", "id": sp.id, "operands": [c.tolist() for c in sp.fills[0]]})
+            continue
+        if results[sp.s_job] is True:
+            n_sp_tied += 1
+        else:
+            ctx.oblige(f"tieS-sprogram:{sp.id}", False, "tie",
+                       f"traced program {desc}: the exported graph {structure(sp.model)} (read as {sp.real}) is not the graph the "
+                       f"model dispatcher emits for the equations {sp.keys}")
+        jb = results[sp.j_job]
+        if jb == []:
+            n_sp_jax += 1
+        else:
+            ctx.oblige(f"tieD2-sprogram:{sp.id}", False, "tie",
+                       f"traced program {desc}: LiftStruct.sp_jax differs from eager JAX on fills {jb} "
+                       f"(first: operands {[c.tolist() for c in sp.fills[jb[0]]] if jb else '?'}, JAX {sp.jax[jb[0]].tolist() if jb else '?'})")
+        deviated = bool(node_op_dtypes(sp.model) & deviations)
+        if sp.o_job is not None:
+            ob = results[sp.o_job]
+            if ob == [] or deviated:
+                n_sp_onnx += 1
+            else:
+                ctx.oblige(f"tieD3-sprogram:{sp.id}", False, "tie",
+                           f"traced program {desc}: LiftStruct.sp_onnx of the emitted graph differs from onnxruntime on fills {ob}")
+        bad = None
+        for f_, ((st, val), cols, ref_) in enumerate(zip(sp.ort, sp.fills, sp.jax)):
+            if st != "ran":
+                if st == "err" and "NOT_IMPLEMENTED" in val:
+                    break
+                bad = (f_, f"onnxruntime: {val[:200]}", ref_.tolist())
+                break
+            got = val[0]
+            sp_points += int(ref_.size)
+            if got.shape != ref_.shape or got.dtype != ref_.dtype or not np.array_equal(got, ref_):
+                bad = (f_, got.tolist(), ref_.tolist())
+                break
+        else:
+            n_sp_searched += 1
+        if bad is not None and not deviated:
+            f_, got, exp = bad
+            ctx.violate(f"sprogram:{sp.id}:{sp.dt}",
+                        f"traced program {desc}: operands {[c.tolist() for c in sp.fills[f_]]}: exported model in onnxruntime gives "
+                        f"{got}, eager JAX gives {exp}; nodes {structure(sp.model)}",
+                        {"kind": "sprogram", "id": sp.id, "operands": [c.tolist() for c in sp.fills[f_]], "onnxruntime": got, "jax": exp,
+                         "nodes": structure(sp.model)})
+    ctx.oblige(f"tieS:traced-program-graph-is-what-the-model-dispatcher-emits({n_sp_tied}/{len(sprogs)} programs)",
+               n_sp_tied == len(sprogs), "tie", "" if n_sp_tied == len(sprogs) else "see the tieS-sprogram / sprog obligations")
+    ctx.coverage.update({"c01k_traced_programs": len(sprogs), "c01k_traced_programs_structure_tied": n_sp_tied,
+                         "c01k_traced_programs_jax_semantics_tied": n_sp_jax, "c01k_traced_programs_onnx_semantics_tied": n_sp_onnx,
+                         "c01k_traced_programs_searched_in_onnxruntime": n_sp_searched, "c01k_traced_program_points": sp_points,
+                         "c01k_traced_program_list": [sp.text for sp in sprogs],
+                         "c01k_traced_program_equations": sorted({k_.split(":")[0].split("->")[0].split("@")[0] for sp in sprogs for k_ in (sp.keys or [])})})
     kernels_seen = sorted({v.k.name for v in live})
     ctx.coverage.update({
         "c01k_kernels": len(kernels_seen), "c01k_kernel_list": kernels_seen,
